@@ -257,7 +257,27 @@ func LoadInstTables(c *core.Ctx) *InstTables {
 				if r.Format == src {
 					nr := &InstRow{Name: r.Name, Opcode: r.Opcode + off, Format: dst, Pos: call.Pos(), FromLoop: true}
 					for i := 5; i < len(cl.Elts) && i-5 < 5; i++ {
-						nr.Widths[i-5], _ = constInt64(p, cl.Elts[i])
+						if v, ok := constInt64(p, cl.Elts[i]); ok {
+							nr.Widths[i-5] = v
+							continue
+						}
+						// a width copied from the source row: <range var>.DSTWidth ...
+						copied := false
+						if sel, ok := cl.Elts[i].(*ast.SelectorExpr); ok {
+							if id, ok := sel.X.(*ast.Ident); ok {
+								if vid, ok := s.Value.(*ast.Ident); ok && id.Name == vid.Name {
+									for k, fnm := range []string{"DSTWidth", "SRC0Width", "SRC1Width", "SRC2Width", "SDSTWidth"} {
+										if sel.Sel.Name == fnm {
+											nr.Widths[i-5] = r.Widths[k]
+											copied = true
+										}
+									}
+								}
+							}
+						}
+						if !copied {
+							t.Undecided = append(t.Undecided, "loop copy in initializeDecodeTable has a width that is neither a constant nor a field of the source row at "+c.Position(cl.Elts[i].Pos()))
+						}
 					}
 					t.Rows = append(t.Rows, nr)
 				}
